@@ -83,6 +83,8 @@ def pick_cases(exports, rnd, quick):
     single = [c for c in exports if len(c["crashes"]) <= 1]
     double = [c for c in exports if len(c["crashes"]) > 1]
     if not quick:
+        rnd.shuffle(double)
+        double = double[:12000]          # seeded sample when the model exports more
         return single + double, len(single), len(double)
     by = collections.defaultdict(list)
     for c in double:
@@ -246,9 +248,15 @@ def main(ctx):
     rnd = random.Random(ctx.seed)
     drv = vlib.build_driver(ctx, "d_chainstore", clocks=CLOCKS)
 
-    # 1. bounded model, code as is: invariants + export of every finished behaviour
+    # 1. bounded model, twice (in parallel): code as is (invariants + export of every finished behaviour) and the
+    #    repaired design (every clause holds)
     cfg = "MC_ChainStore_quick.cfg" if quick else "MC_ChainStore_thorough.cfg"
-    r = vlib.tlc(ctx, "MC_ChainStore.tla", cfg, workers=min(ctx.cores, 12), timeout=3000)
+    cfgf = "MC_ChainStore_fixed.cfg" if quick else "MC_ChainStore_fixed_thorough.cfg"
+    w = max(2, min(ctx.cores // 2, 8))
+    with concurrent.futures.ThreadPoolExecutor(max_workers=2) as ex:
+        fa = ex.submit(vlib.tlc, ctx, "MC_ChainStore.tla", cfg, workers=w, timeout=3400, sub="mc_as_is")
+        ff = ex.submit(vlib.tlc, ctx, "MC_ChainStore.tla", cfgf, workers=w, timeout=3400, want_exports=False, sub="mc_repaired")
+        r, rf = fa.result(), ff.result()
     if not r.ok:
         raise vlib.CheckError("design-level ChainStore model (code as is) violates %s (model-only, not a verdict):\n%s"
                               % (r.invariant, (r.error or "")[:1500]))
@@ -258,9 +266,6 @@ def main(ctx):
     predicted_broken = sum(1 for e in exports if e["broken"])
     ctx.log("model (as is): %d generated / %d distinct states, %d behaviours exported (%d with clauses the model sees broken), %.0fs"
             % (r.generated, r.distinct, len(exports), predicted_broken, r.wall))
-    # repaired design: every clause holds
-    cfgf = "MC_ChainStore_fixed.cfg" if quick else "MC_ChainStore_fixed_thorough.cfg"
-    rf = vlib.tlc(ctx, "MC_ChainStore.tla", cfgf, workers=min(ctx.cores, 12), timeout=3000, want_exports=False)
     if not rf.ok:
         raise vlib.CheckError("design-level ChainStore model (repaired design) violates %s (model-only, not a verdict):\n%s"
                               % (rf.invariant, (rf.error or "")[:1500]))
